@@ -26,7 +26,9 @@ inductive Tok where
   | punct (c : Nat)
 deriving DecidableEq, Repr
 
-def isSpace (c : Nat) : Bool := c == 32 || c == 9 || c == 10 || c == 12 || c == 13
+/-- `isSQLSpace`; a vertical tab (11) is whitespace for SQLite only after other whitespace,
+the guard treats it as whitespace everywhere (safe side) -/
+def isSpace (c : Nat) : Bool := c == 32 || c == 9 || c == 10 || c == 11 || c == 12 || c == 13
 
 def isWordByte (c : Nat) : Bool :=
   c == 95 || c == 36 || c ≥ 128 || (48 ≤ c && c ≤ 57) || (97 ≤ c && c ≤ 122) || (65 ≤ c && c ≤ 90)
